@@ -5,8 +5,12 @@ VERIF = os.path.dirname(os.path.dirname(os.path.abspath(__file__)))
 sys.path.insert(0, VERIF)
 ALL = [f'C{i:02d}' for i in range(1, 21)]
 checks, na = [], []
+hold_path = os.path.join(VERIF, 'props', 'hold.json')
+HOLD = json.load(open(hold_path)) if os.path.exists(hold_path) else {}
 for pid in ALL:
-    if os.path.exists(os.path.join(VERIF, 'props', pid.lower() + '.py')):
+    if pid in HOLD:
+        na.append({'property_id': pid, 'reason': HOLD[pid]})
+    elif os.path.exists(os.path.join(VERIF, 'props', pid.lower() + '.py')):
         P = importlib.import_module('props.' + pid.lower())
         checks.append({
             'property_id': pid,
